@@ -441,6 +441,12 @@ class TStr:
             raise ValueError("substring not found")
         return r
 
+    def rindex(self, item, *a):
+        r = self._find(item, True, a)
+        if isinstance(r, int) and r == -1:
+            raise ValueError("substring not found")
+        return r
+
     def strip(self, chars=None):
         return ENGINE.facts.strip(self, True, True, chars)
 
